@@ -81,7 +81,7 @@ CLAIMED = {
         "an incompatible request is ELaspy; a value exceeding the narrower target field is EOverflow (never truncation) and conversely fitting values "
         "always succeed; the lost list is exactly the source dimensions absent from the target. Correspondence over all 121 pairs x versions.",
    design="5/C12", technique="Coq proof: induction over target dimension lists on generated tables; extracted model vs laspy.convert on all pairs",
-   note=BASE_NOTE + " Source immutability / aliasing are harness-side snapshots; extra-dimension names assumed distinct from standard and legacy alias names."),
+   note=BASE_NOTE + " Source immutability / aliasing are harness-side snapshots; extra-dimension names may clash with standard, sub-field, alias and coordinate names (modelled since round 5; the field names of one record are pairwise distinct, which numpy guarantees)."),
  "C13": dict(
    text="Invariant theorem over arbitrary histories of Add / Remove / Assign / RoundTrip: every dimension not named by an operation keeps its raw bytes, "
         "record length = standard + extra sizes, the extra-bytes VLR occurs exactly once (iff there are extra dimensions) with descriptors that decode to "
@@ -89,7 +89,7 @@ CLAIMED = {
         "nothing; 192-byte descriptor codec round trip for the 30 types, scaled or not, and opaque arrays of 4..255 bytes; write/read round trip of the state. "
         "The descriptor layout, masks and getters are extracted from the source each run. Correspondence after every step of random histories.",
    design="5/C13", technique="Coq proof: state-machine invariant by induction over operation histories + descriptor codec round trip; extracted model vs laspy per step",
-   note=BASE_NOTE + " Names introduced by Add are assumed fresh (not standard, not legacy aliases); numpy dtype layout and ctypes are compared, not modelled."),
+   note=BASE_NOTE + " numpy dtype layout and ctypes are compared, not modelled."),
  "C18": dict(
    text="Theorems over an ownership state machine whose skeleton (except classes and close actions of open_las per mode, closefd stored by each "
         "constructor, the five close methods, __exit__, the lazily created point source incl. the null reader, LasData.write's closefd constant) is "
